@@ -241,9 +241,7 @@ var _ = strings.Contains
 // c10elemTypes: after semantic resolution a *parser.Type that names a typedef of a container has Category Map/List/Set but
 // nil KeyType/ValueType; the read/write context resolves typedefs for its KeyCtx/ValCtx. The fastgo emitters therefore may
 // not read Type.KeyType/ValueType, except at the tabled sites (nil-guarded shortcuts whose fallback computes the same).
-var c10ElemTypeReads = map[string]string{
-	"genBLengthList": "nil-guarded fast path `if t.ValueType != nil`; the fallback loop adds the same size per element",
-}
+var c10ElemTypeReads = map[string]string{}
 
 func c10elemTypes(c *core.Check) {
 	pk := c.Prog.Pkg(fastgoRel)
